@@ -218,6 +218,16 @@ func (tr *Tr) evalCall(env *CEnv, x *CCall) (Value, types.Type) {
 				}
 			}
 			return boolV(sAnd(cs...)), bt
+		case "ncalls":
+			if tr.cbParam == nil {
+				panic(subsetErr("ncalls outside an iterating function"))
+			}
+			return env.st.vars[cbN], nil
+		case "callid":
+			if tr.cbParam == nil {
+				panic(subsetErr("callid() outside an iterating function"))
+			}
+			return Sc{T: sSel(env.st.vars[cbID].(Sc).T, tr.evalInt(env, x.Args[0]))}, nil
 		case "sameheap":
 			// sameheap("heap-prefix", ...): the named heap variables are identical (as whole arrays) to what they were in the old state
 			reg := tr.g.heapRegistry()
